@@ -241,7 +241,9 @@ func runMetaCase(c *metaCase) (sig, msg, outcome string) {
 			case "chtimes":
 				var sec, ns int64
 				fmt.Sscanf(op.Arg, "%d.%d", &sec, &ns)
-				ct, at, mt := time.Unix(sec, ns).UTC(), time.Unix(sec+86400, ns).UTC(), time.Unix(sec+172800, ns).UTC()
+				// the three times differ in seconds AND in their sub-second part (and, for values one or two days before a
+				// 2^31/2^32-second boundary, in their epoch bits), so that no two of them can be exchanged unnoticed
+				ct, at, mt := time.Unix(sec, ns).UTC(), time.Unix(sec+86400, (ns+333333333)%1000000000).UTC(), time.Unix(sec+172800, (ns+777777777)%1000000000).UTC()
 				if fat {
 					ct, at = mt.Add(-172800*time.Second), mt.Add(-172800*time.Second)
 					mt = ct
@@ -541,7 +543,8 @@ func enumC19(quick bool) []metaCase {
 			cs = append(cs, metaCase{FS: "ext4", Ops: []metaOp{{"chown", target, id}}})
 		}
 		if target != "l" {
-			for _, t := range times {
+			// also: atime before and mtime after the 2038 (2^31 s) and 2106 (2^32 s) boundaries
+			for _, t := range append(append([]string{}, times...), "2147383648.1", "4294867296.2") {
 				cs = append(cs, metaCase{FS: "ext4", Ops: []metaOp{{"chtimes", target, t}}})
 			}
 		}
